@@ -6,6 +6,7 @@ package c11
 import (
 	"bytes"
 	"fmt"
+	"io"
 	"os"
 	"os/exec"
 	"strings"
@@ -17,7 +18,7 @@ import (
 	"verif/harness/ev"
 )
 
-var rec = ev.New("C11", "real-runtime Fatal path: a re-executed child logs N messages through a diode.Writer (waiter or poller mode, optionally wrapped in a FilteredLevelWriter / MultiLevelWriter) and then calls Logger.Fatal (the fatal event written, or filtered out by a child logger's level, the global level or a rejecting sampler); the parent requires exit status 1 and all N messages plus the fatal message on the child's stdout, in order")
+var rec = ev.New("C11", "real-runtime Fatal path: a re-executed child logs N messages through a diode.Writer (waiter or poller mode, optionally wrapped in a FilteredLevelWriter / MultiLevelWriter) and then calls Logger.Fatal (the fatal event written, or filtered out by a child logger's level, the global level or a rejecting sampler); also with a wrapped writer so slow that draining takes ~6 s; the parent requires exit status 1 and all N messages plus the fatal message on the child's stdout, in order")
 
 func TestMain(m *testing.M) {
 	if c := os.Getenv("VERIF_C11_CHILD"); c != "" {
@@ -37,7 +38,12 @@ func child(c string) {
 	if mode == "poller" {
 		poll = 2 * time.Millisecond
 	}
-	dw := diode.NewWriter(os.Stdout, 4096, poll, func(missed int) { fmt.Printf("MISSED %d\n", missed) })
+	var dst io.Writer = os.Stdout
+	if ms := os.Getenv("VERIF_C11_SLOW_MS"); ms != "" {
+		d, _ := time.ParseDuration(ms + "ms")
+		dst = slowWriter{os.Stdout, d}
+	}
+	dw := diode.NewWriter(dst, 4096, poll, func(missed int) { fmt.Printf("MISSED %d\n", missed) })
 	var l zerolog.Logger
 	switch wrap {
 	case "filtered":
@@ -67,7 +73,53 @@ func child(c string) {
 	fmt.Println("SURVIVED")
 }
 
+// slowWriter takes its time over every line (a terminal, a pipe to a slow consumer, a network sink).
+type slowWriter struct {
+	w io.Writer
+	d time.Duration
+}
+
+func (s slowWriter) Write(p []byte) (int, error) { time.Sleep(s.d); return s.w.Write(p) }
+
+// runChild re-executes the test binary as a logging child and returns its exit code and output.
+func runChild(t *testing.T, spec string, env ...string) (int, string) {
+	cmd := exec.Command(os.Args[0], "-test.run=^$")
+	cmd.Env = append(append(os.Environ(), "VERIF_C11_CHILD="+spec, "VERIF_EV_OUT="), env...)
+	var out bytes.Buffer
+	cmd.Stdout = &out
+	cmd.Stderr = &out
+	err := cmd.Run()
+	code := 0
+	if ee, ok := err.(*exec.ExitError); ok {
+		code = ee.ExitCode()
+	} else if err != nil {
+		t.Fatalf("HARNESS-ERROR: cannot re-execute test binary: %v", err)
+	}
+	return code, out.String()
+}
+
 func TestFatalDrains(t *testing.T) {
+	// a backlog that takes several seconds to drain (130 lines at 45 ms): Fatal exits only after the
+	// last of them reached the wrapped writer, however long that takes; runs beside the other cases
+	type slowRes struct {
+		code int
+		out  string
+	}
+	slowDone := make(chan slowRes, 1)
+	go func() {
+		code, out := runChild(t, "130 waiter plain", "VERIF_C11_SLOW_MS=45", "VERIF_C11_FATAL=written")
+		slowDone <- slowRes{code, out}
+	}()
+	defer func() {
+		r := <-slowDone
+		lines := strings.Split(strings.TrimSpace(r.out), "\n")
+		rec.Case([]byte("slow drain 130 x 45ms"), true, "fatal-path", "slow-drain")
+		if r.code != 1 || len(lines) != 131 || !strings.Contains(lines[130], `"level":"fatal"`) || strings.Contains(r.out, "MISSED") {
+			ev.SaveReplay("C11-fatal", map[string]interface{}{"mode": "waiter", "wrap": "plain", "n": 130, "slow_ms": 45})
+			fmt.Printf("VERIF-FAIL: Fatal path [slow drain]: exit %d, %d of 131 lines delivered before the process exited\n", r.code, len(lines))
+			t.Errorf("slow drain: exit %d, %d of 131 lines; tail %q", r.code, len(lines), tailStr(r.out))
+		}
+	}()
 	for _, mode := range []string{"waiter", "poller"} {
 		for _, wrap := range []string{"plain", "filtered", "multi"} {
 			for _, n := range []int{0, 1, 7, 500, 3000} {
